@@ -22,11 +22,31 @@ use crate::error::Result;
 ///
 /// Similar to [`OneOrMany`](crate::common::OneOrMany) except instances are guaranteed to be unique,
 /// and only immutable references are allowed.
-#[derive(Clone, Hash, PartialEq, Eq, PartialOrd, Ord, Deserialize, Serialize)]
+#[derive(Clone, Hash, PartialEq, Eq, PartialOrd, Ord, Serialize)]
 #[serde(transparent)]
 pub struct OneOrSet<T>(OneOrSetInner<T>)
 where
   T: KeyComparable;
+
+impl<'de, T> Deserialize<'de> for OneOrSet<T>
+where
+  T: KeyComparable + Deserialize<'de>,
+{
+  fn deserialize<D>(deserializer: D) -> std::result::Result<Self, D::Error>
+  where
+    D: de::Deserializer<'de>,
+  {
+    // A set of a single item is held as `One`, as every constructor does: otherwise `["a"]` and `"a"`
+    // deserialize to unequal values, and mapping the former (`map`, `try_map`) changes its representation.
+    Ok(match OneOrSetInner::deserialize(deserializer)? {
+      OneOrSetInner::Set(set) if set.len() == 1 => match set.into_vec().pop() {
+        Some(item) => Self(OneOrSetInner::One(item)),
+        None => return Err(de::Error::custom(Error::OneOrSetEmpty)),
+      },
+      inner => Self(inner),
+    })
+  }
+}
 
 // Private to prevent creations of empty `Set` variants.
 #[derive(Clone, Debug, Hash, PartialEq, Eq, PartialOrd, Ord, Deserialize, Serialize)]
